@@ -142,8 +142,11 @@ func anyFileNewerThan(files []string, givenTime time.Time) (bool, error) {
 }
 
 // OnError implements the Checker interface
-func (*TimestampChecker) OnError(t *ast.Task) error {
-	return nil
+func (checker *TimestampChecker) OnError(t *ast.Task) error {
+	if len(t.Sources) == 0 {
+		return nil
+	}
+	return os.Remove(checker.timestampFilePath(t))
 }
 
 func (checker *TimestampChecker) timestampFilePath(t *ast.Task) string {
